@@ -12,11 +12,11 @@ PLAN = dict(
          "extreme in the bits x~ keeps (bounded search over small multiples of G), from identity lengths 0 (default) .. 8191 "
          "and 8192+ (must fail), key lengths 1..200 and a few longer, and from seeded random draws; distinct = distinct class "
          "keys (generator / confirmation mode / key-length class / identity classes / API path), none is trivial",
-    jobs=both("c08.agree", _CFG_EC, shards=(8, 16), floor=100)
+    jobs=both("c08.agree", _CFG_EC + ["ia32"], shards=(8, 16), floor=100)
          + both("c08.confirm", _CFG, shards=(4, 8), floor=10)
          + both("c08.peers", _CFG_EC, shards=(4, 8), floor=50)
-         + both("c08.ecdh", _CFG_EC, shards=(4, 8), floor=50)
-         + both("c08.implicitsig", _CFG, shards=(1, 2), floor=20),
+         + both("c08.ecdh", _CFG_EC + ["ia32"], shards=(4, 8), floor=50)
+         + both("c08.implicitsig", _CFG + ["ia32"], shards=(1, 2), floor=20),
     assumptions=["harness/ref/sm2kx (GB/T 32918.3 on math/big affine arithmetic of ref/ec and the bitwise SM3 of ref/sm3) is right: "
                  "validated at every start against the recommended-curve example of GB/T 32918.5 / GM/T 0003.5 (public keys, ZA, ZB, "
                  "RA, RB, key, S1/SB, S2/SA) and the three vectors of the repository's tests, and by U = V on every session",
